@@ -183,6 +183,37 @@ def run(ctx):
                     n += 1
                     ctx.sample({'map': e['file'], 'fault': {k2: v for k2, v in f.describe().items() if k2 in ('kind', 'level', 'codes', 'set_index', 'seg_id', 'seg_pos', 'ele_pos', 'sub_pos', 'value', 'node_path', 'note')},
                                 'faulty_segment': gen_doc.render_seg(f.doc.recs[f.rec_index].node.id, f.doc.recs[f.rec_index].vals) if f.rec_index is not None and f.rec_index < len(f.doc.recs) else None})
+    # directed bases for the rare kinds: maps whose elements carry a <regex>; documents are drawn until one holds such an element
+    from vlib import refmap
+    for e in entries:
+        if not ctx.mine(('pattern', e['file'], e.get('tspc'))):
+            continue
+        root = gen_doc.load_map(e['file'])
+        if not any(nd.kind == 'ele' and nd.regex for nd in refmap.walk(root)):
+            continue
+        done = 0
+        for t in range(24):
+            if done >= (2 if ctx.quick else 8):
+                break
+            seed = zlib.crc32(repr((ctx.seed, 'pattern', e['file'], t)).encode())
+            kw = dict(fill=0.6, opt_prob=0.9, maxrep=1, charset='E', rich=False, n_isa=1, n_gs=1, n_st=2)
+            try:
+                base = gen_doc.gen_document(e, seed, **kw)
+            except gen_doc.GenFailed:
+                continue
+            if len(base.recs) > 900:
+                continue
+            rng = ctx.sub_rng('c03p', e['file'], t)
+            f = faults.inject(rng, base, kind='bad_pattern', tries=2)
+            if f is None:
+                continue
+            r0 = pipeline.validate(base.text(), charset=base.charset)
+            if r0.exc is not None or r0.verdict is not True:
+                ctx.count('base-not-accepted')
+                continue
+            done += 1
+            judge(ctx, f, {'map': e['file'], 'entry': e, 'gen_seed': seed, 'params': kw, 'fault': f.describe(), 'text': None}, sigs)
+            n += 1
     ctx.case(n=n, sigs=sorted(sigs))
 
 
